@@ -104,7 +104,10 @@ def families(tier):
         keep = {'alloc-put', 'alloc-put-2p', 'alloc-post-2c', 'alloc-delete',
                 'alloc-post-clear+new', 'reshape-move', 'inv-put-all-2',
                 'inv-delete-all', 'traits-put', 'aggs-put-new',
-                'alloc-put-1.38'}
+                'alloc-put-1.38',
+                # writes that also change who owns / what type the consumer is
+                'alloc-put-1.38-newtype', 'alloc-put-newproj',
+                'alloc-post-2c-1.38-newattrs', 'reshape-move-1.38-newattrs'}
         shapes = [s for s in shapes if s.name in keep]
     return [make_family(s) for s in shapes] + provider_families()
 
